@@ -101,6 +101,16 @@ def _judge_t(rec, ctx, cls_name, T, n_ch, n_poles, kw):
     dpole = np.min(np.abs(s[:, None] - desc["pole_masses"][None, :] ** 2), axis=1)
     # K ~ g^2/(m^2-s): rounding amplified by 1/dpole; T bounded by unitarity (|T| <= 1)
     tol = 1e-10 * (1 + 1 / dpole) * (1 + tmax) ** 2 * n_ch * n_poles
+    # empirical conditioning of the *evaluation* of the symbolic expression (the closed-form 3x3 inverse and the L = 3, 4 barrier
+    # polynomials cancel heavily near a pole): change of T under three 1e-13 relative perturbations of all inputs, times 1e3.
+    # The identity is a statement about the formulated T; rounding of its float evaluation is not a defect of the formula.
+    noise = np.zeros(n_s)
+    for _ in range(3):
+        env2 = {k_: (v_ * (1 + 1e-13 * rng.normal(size=np.shape(v_))) if isinstance(v_, np.ndarray) and v_.dtype.kind == "f" else v_) for k_, v_ in env.items()}
+        d_ = np.abs(eval_matrix(T, env2, n_s) - Tn).max(axis=(1, 2))
+        noise = np.maximum(noise, np.where(np.isfinite(d_), d_, np.inf))
+    tol = tol + 1e3 * 8 * noise * (1 + tmax)
+    rec.stratum("evaluation_conditioning", "well" if float(np.median(noise)) < 1e-11 else "ill")
     S = np.eye(n_ch) + 2j * Tn
     dev = np.abs(np.einsum("nji,njk->nik", S.conj(), S) - np.eye(n_ch)).max(axis=(1, 2))
     i = int(np.argmax(dev / tol))
